@@ -49,7 +49,7 @@ Definition spc_ok (s : st) (pc : spc) (nested : bool) : Prop :=
   | SRegister r =>
       s_status s = Running /\ s_map s = Some r /\ s_cur s = Some r /\ r < s_next s /\ alive (s_runs s r)
       /\ s_cleans s r = None
-  | SOpenA _ | SOpenSrc _ | SOpenDlq _ => False
+  | SOpenA _ | SOpenSrc _ | SOpenDlq _ | SRollback _ => False
   end.
 
 (* the nested Start has not replaced the map entry of its cleanup goroutine yet *)
@@ -344,7 +344,7 @@ Qed.
 (* the run a Start position talks about *)
 Definition pc_run (pc : spc) : option nat :=
   match pc with
-  | SClear r | SSpawn r | SPublish r | SStatus r | SRegister r | SOpenA r | SOpenSrc r | SOpenDlq r => Some r
+  | SClear r | SSpawn r | SPublish r | SStatus r | SRegister r | SOpenA r | SOpenSrc r | SOpenDlq r | SRollback r => Some r
   | SCheck | SBuild => None
   end.
 
@@ -1461,7 +1461,7 @@ Lemma start_step_GG c s pc ch :
   c_engine c = V1 -> GG s ->
   match start_step c s pc ch with
   | SNext s' _ _ | SFin s' _ _ =>
-      match pc with SOpenA _ | SOpenSrc _ | SOpenDlq _ => True | _ => GG s' end
+      match pc with SOpenA _ | SOpenSrc _ | SOpenDlq _ | SRollback _ => True | _ => GG s' end
   | SStuck => True
   end.
 Proof.
@@ -1494,7 +1494,7 @@ Qed.
 Lemma GG_ext s s' : s_guard s' = s_guard s -> s_runs s' = s_runs s -> s_next s' = s_next s -> GG s -> GG s'.
 Proof. intros E1 E2 E3 HG g Hg. rewrite E1 in Hg. rewrite E2, E3. apply HG. exact Hg. Qed.
 
-Lemma not_v2_pc s pc n : spc_ok s pc n -> match pc with SOpenA _ | SOpenSrc _ | SOpenDlq _ => False | _ => True end.
+Lemma not_v2_pc s pc n : spc_ok s pc n -> match pc with SOpenA _ | SOpenSrc _ | SOpenDlq _ | SRollback _ => False | _ => True end.
 Proof. destruct pc; simpl; auto. Qed.
 
 Lemma step_GG c s a s' l :
